@@ -3,6 +3,8 @@
 (* catalog/catalog.py, MPI variant of write_patches:                       *)
 (*                                                                         *)
 (*   max_workers = get_size(max_workers); < 2 -> ValueError on every rank  *)
+(*   (a reader alone on its node cannot pick a writer either: modelled as  *)
+(*   the same rejection)                                                   *)
 (*   WorkerManager: active = first max_workers ranks on the reader's node, *)
 (*                  writer = (active \ {reader}).pop(), workers = rest     *)
 (*   writer : with CatalogWriter(...):                                     *)
@@ -27,7 +29,7 @@
 (***************************************************************************)
 EXTENDS MPISem, TLC
 
-CONSTANTS Size, MaxWorkers, NC, SendModes, Deviations
+CONSTANTS Size, MaxWorkers, NC, SendModes, RemoteRanks, Deviations
 
 VARIABLES pc, ret, chan, writer, chunk, jsend, got, eoqs, wbar, gbar
 
@@ -36,7 +38,9 @@ vars == <<pc, ret, chan, writer, chunk, jsend, got, eoqs, wbar, gbar>>
 Ranks == 0..(Size - 1)
 Min(a, b) == IF a < b THEN a ELSE b
 MW == IF MaxWorkers = 0 THEN Size ELSE Min(MaxWorkers, Size)
-Active == 0..(MW - 1)
+(* ranks_on_same_node(reader, max_workers): the first MW ranks that share the reader's node *)
+SameNode == Ranks \ RemoteRanks
+Active == { r \in SameNode : Cardinality({ q \in SameNode : q < r }) < MW }
 Reader == 0
 Workers == Active \ {writer}                 \* includes the reader
 Others == Workers \ {Reader}
@@ -50,7 +54,7 @@ Init == /\ chan = EmptyChan(Ranks)
         /\ chunk = [r \in Ranks |-> 1]
         /\ jsend = 1
         /\ got = {} /\ eoqs = 0 /\ wbar = {} /\ gbar = {}
-        /\ IF MW < 2
+        /\ IF MW < 2 \/ Cardinality(Active) < 2
              THEN /\ writer = 0
                   /\ pc = [r \in Ranks |-> "raised"]
              ELSE /\ writer \in (Active \ {Reader})          \* set.pop(): any
@@ -177,7 +181,7 @@ Termination == <>Done
 (* C06: no record is lost between reader, workers and writer: when the     *)
 (* writer closes the catalog it has received every part of every chunk     *)
 NoRecordLost ==
-    (MW >= 2 /\ pc[writer] \in {"w_final", "gbarrier", "gbwait", "done"}) => got = AllParts
+    (MW >= 2 /\ Cardinality(Active) >= 2 /\ pc[writer] \in {"w_final", "gbarrier", "gbwait", "done"}) => got = AllParts
 
 NoLeftover == Done => AllEmpty(chan)
 
